@@ -148,12 +148,153 @@ class RegisterReader(Contract):
                 ('present=>unchanged', Implies(present, symlist_same(reg, n0, get0)))]
 
 
-CONTRACTS = [GetReader(False), GetReader(True), RegisterReader()]
+class GetReaderProved(Contract):
+    """summary of getreader used while verifying pncopen: returns some reader class; its frame (registry unchanged, no
+    module global written) is what the GetReader contracts above prove"""
+    prop = 'C15'
+    target = GR + '::getreader'
+
+    def apply(self, I, func, args, kwargs):
+        I.ctx.ghost.setdefault('calls', []).append('getreader')
+        I.ctx.trust_contract = getattr(I.ctx, 'trust_contract', set())
+        I.ctx.trust_contract.add(self.target + ' (proved: contracts getreader[...])')
+        return Opaque('reader class chosen by getreader')
+
+
+class ReaderDictAssumed(Contract):
+    """getreaderdict() = dict(_readers): a NEW dictionary of the registered (name, reader) pairs -- looking a name up in it
+    yields that reader or raises KeyError; the registry itself is not touched"""
+    prop = 'C15'
+    target = GR + '::getreaderdict'
+
+    def apply(self, I, func, args, kwargs):
+        from pyvc.exec import Obj
+        from pyvc import models
+        I.ctx.ghost.setdefault('calls', []).append('getreaderdict')
+
+        def getitem(I2, a, k):
+            if I2.ctx.branch(I2.ctx.fresh('format_is_registered', 'Bool')):
+                return Opaque('reader class registered under the given format')
+            raise PyExc('KeyError')
+        return Obj(None, {'__getitem__': models.native(getitem)}, tag='dict(_readers)')
+
+
+class PncOpen(Contract):
+    """pncopen(path, [format=F]) for an ARBITRARY registry: the registry is the same list with the same content afterwards
+    (also when it raises), no module-level variable is written and none other than the registry is read -- opening a file,
+    with or without naming its format, cannot change what a later auto-detection returns.  With a format the reader comes
+    from a dictionary copy of the registry and getreader is not consulted; without, getreader is called exactly once."""
+    prop = 'C15'
+    target = GR + '::pncopen'
+    uses = [GetReaderProved(), ReaderDictAssumed()]
+    max_paths = 60
+
+    def __init__(self, with_format):
+        self.with_format = with_format
+        self.name = 'pncopen[%s]' % ('format given' if with_format else 'auto-detect')
+
+    def inputs(self, ctx, I):
+        path = AbsStr(ctx.fresh('path'))
+        reg = registry(ctx, path.sid)
+        ctx.modstate[(GR, '_readers')] = reg
+        self.reg0 = (reg.n, reg.get)
+        self.reg = reg
+        kw = {}
+        if self.with_format:
+            kw['format'] = AbsStr(ctx.fresh('format'))
+        return dict(args=(path,), kwds=kw)
+
+    def call_args(self, inp):
+        return list(inp['args']), dict(inp['kwds'])
+
+    def frame(self, I):
+        reg = I.ctx.modstate[(GR, '_readers')]
+        n0, get0 = self.reg0
+        w = sorted(set(e[2] for e in I.ctx.events if e[0] == 'global-write'))
+        r = sorted(set(e[2] for e in I.ctx.events if e[0] == 'global-read' and e[2] != '_readers'))
+        return [('frame:registry-unchanged', symlist_same(reg, n0, get0)), ('frame:registry-same-object', reg is self.reg),
+                ('frame:registry-not-mutated-in-between', not reg.mutations),
+                ('frame:no-module-global-written %s' % (w or ''), not w), ('determinism:no-other-module-state-read %s' % (r or ''), not r)]
+
+    def ensures(self, inp, res, I):
+        calls = I.ctx.ghost.get('calls', [])
+        return self.frame(I) + [('reader-lookup', calls == (['getreaderdict'] if self.with_format else ['getreader']))]
+
+    def on_raise(self, inp, exc, I):
+        return self.frame(I) + [('raises-only-KeyError-for-an-unknown-format (raised %s)' % exc, exc == 'KeyError' and self.with_format)]
+
+
+CONTRACTS = [GetReader(False), GetReader(True), RegisterReader(), PncOpen(False), PncOpen(True)]
+
+
+def bounded(tier, seed):
+    """histories on the real code: every operation of the catalogue (auto-detecting and format-naming opens of files with
+    registered, unregistered and no suffix) must leave the registry as it was and must not change what getreader answers
+    for any probe file"""
+    from rtc import harness as H
+    import numpy as np
+    import os, tempfile, shutil, itertools, netCDF4
+    P = H.real()
+    import PseudoNetCDF._getreader as G
+    from PseudoNetCDF import pncopen, getreader
+    run = H.Run('C15', tier, seed, budget_s=60 if tier == 'quick' else 300)
+    tmp = tempfile.mkdtemp(prefix='verif_c15_')
+    try:
+        files = {}
+        for nm in ('plain', 'a.nc', 'b.dat', 'c.out', 'd.dat'):
+            p = os.path.join(tmp, nm)
+            ds = netCDF4.Dataset(p, 'w', format='NETCDF3_CLASSIC')
+            ds.createDimension('x', 2)
+            ds.createVariable('x', 'f', ('x',))[:] = [1, 2]
+            ds.close()
+            files[nm] = p
+        ops = [('getreader(%s)' % nm, (lambda p: (lambda: getreader(p)))(p)) for nm, p in files.items()]
+        ops += [('pncopen(%s)' % nm, (lambda p: (lambda: pncopen(p).close()))(p)) for nm, p in files.items()]
+        ops += [('pncopen(%s, format=netcdf)' % nm, (lambda p: (lambda: pncopen(p, format='netcdf').close()))(p)) for nm, p in files.items()]
+        ops += [('pncopen(%s, format=ioapi)' % nm, (lambda p: (lambda: pncopen(p, format='ioapi')))(p)) for nm, p in list(files.items())[:2]]
+
+        def probe():
+            return {nm: getreader(p) for nm, p in files.items()}
+        base_reg = list(G._readers)
+        base = probe()
+        depth = 2 if tier == 'quick' else 3
+        for seq in itertools.chain.from_iterable(itertools.product(range(len(ops)), repeat=k) for k in range(1, depth + 1)):
+            if run.out_of_time():
+                break
+            names = [ops[i][0] for i in seq]
+
+            def t(seq=seq, names=names):
+                for i in seq:
+                    try:
+                        ops[i][1]()
+                    except Exception:
+                        pass            # an open may fail (wrong format named); the registry must still be as it was
+                    now = list(G._readers)
+                    if len(now) != len(base_reg) or any(a[0] != b[0] or a[1] is not b[1] for a, b in zip(now, base_reg)):
+                        extra = [a[0] for a in now if all(a[0] != b[0] for b in base_reg)]
+                        G._readers[:] = base_reg       # restore so that later histories start from the same registry
+                        return 'the reader registry changed during %s (new names %r)' % (ops[i][0], extra)
+                got = probe()
+                diff = [nm for nm in files if got[nm] is not base[nm]]
+                if diff:
+                    return 'after this history getreader answers %s for %s (it answered %s before)' % (got[diff[0]].__name__, diff[0], base[diff[0]].__name__)
+                return None
+            run.case('C15:history ' + ' ; '.join(names[-1:]), tuple(names), t)
+    finally:
+        shutil.rmtree(tmp, ignore_errors=True)
+    return run.result(
+        rule='every history of opens: registry (names, order, identity of reader classes) unchanged after every operation; getreader answers the same reader for every probe file as before the history',
+        bound='5 small netCDF files (no suffix, .nc, .dat x2, .out); 17 operations (getreader / pncopen auto / pncopen with format netcdf or ioapi); all sequences of length <= %d' % depth)
+
+
+def bounded_replay(p):
+    return False, p.get('what')
+
 
 META = dict(
     level='proof',
     technique='contract-based deductive verification: frame condition on the module registry for an arbitrary (symbolic-length) registry',
-    text='getreader is proved to leave the module-level registry unchanged (content and identity) on every path, for a '
+    text='getreader and pncopen (with and without an explicit format) are proved to leave the module-level registry unchanged (content and identity) on every path, for a '
          'registry of arbitrary length and arbitrary isMine predicates, with and without an explicit format; '
          'registerreader is proved to insert at the front iff the name is absent. History independence follows: the '
          'reader chosen is a function of the arguments and the registry, and the registry is invariant under getreader.',
